@@ -62,6 +62,7 @@ type Frame struct {
 	summarised map[int]bool
 	cloAlts    map[ssa.Value][]cloAlt // function-typed phis whose incoming values are closures or nil
 	closureOverride *ssa.MakeClosure
+	redirect   *mirror // equiv obligations: reads of mirrored fields / globals are redirected (C20)
 }
 
 type deferred struct {
@@ -436,6 +437,7 @@ func (f *Frame) val(v ssa.Value) Val {
 	case *ssa.Global:
 		// address of a package-level variable
 		g, _ := c.Object().(*types.Var)
+		g = f.redirect.global(g)
 		if g == nil {
 			return Val{T: u.fresh("glob", "Int"), Typ: c.Type()}
 		}
@@ -610,6 +612,13 @@ func (f *Frame) instr(in ssa.Instruction, st *state) {
 		base := f.val(x.X)
 		st0 := x.X.Type().Underlying().(*types.Pointer).Elem()
 		s := st0.Underlying().(*types.Struct)
+		if j := f.redirect.field(st0, s, x.Field); j != x.Field {
+			// (mirror substitution: this frame reads the corresponding field instead)
+			cp := *x
+			cp.Field = j
+			f.fieldAddr(x, &cp, st, in)
+			return
+		}
 		ft := s.Field(x.Field).Type()
 		if base.Loc != nil {
 			l := *base.Loc
@@ -701,7 +710,11 @@ func (f *Frame) instr(in ssa.Instruction, st *state) {
 	case *ssa.Field:
 		v := f.val(x.X)
 		_, sels, s := u.D.structCtor(x.X.Type())
-		f.vals[x] = Val{T: app(sels[x.Field], v.T), Typ: s.Field(x.Field).Type()}
+		fi := x.Field
+		if st, ok := x.X.Type().Underlying().(*types.Struct); ok {
+			fi = f.redirect.field(x.X.Type(), st, x.Field)
+		}
+		f.vals[x] = Val{T: app(sels[fi], v.T), Typ: s.Field(fi).Type()}
 	case *ssa.Index:
 		v := f.val(x.X)
 		idx := f.val(x.Index).T
@@ -841,6 +854,12 @@ func (f *Frame) unop(x *ssa.UnOp, st *state) {
 		if sg, ok := x.X.(*ssa.Global); ok {
 			if gv, ok := sg.Object().(*types.Var); ok && f.fn.Name() != "init" && u.globalNonNil(gv) {
 				u.emit("(assert " + nonNilTerm(v.T, x.Type()) + ")")
+			}
+			if gv, ok := sg.Object().(*types.Var); ok && f.fn.Name() != "init" && u.structKeys {
+				gv = f.redirect.global(gv)
+				if c, ok := u.globalConst(gv); ok {
+					u.emit("(assert (= " + v.T + " " + u.constVal(c).T + "))")
+				}
 			}
 		}
 		// attribute lists of a parsed pkix.Name are nil or non-empty
@@ -1455,6 +1474,26 @@ func (u *Unit) parserInvariant(h *Heap, t string, typ types.Type) {
 }
 
 
+// fieldAddr: the FieldAddr case for a (possibly redirected) field; the value is bound to the
+// original instruction.
+func (f *Frame) fieldAddr(orig *ssa.FieldAddr, x *ssa.FieldAddr, st *state, in ssa.Instruction) {
+	u := f.u
+	base := f.val(x.X)
+	st0 := x.X.Type().Underlying().(*types.Pointer).Elem()
+	s := st0.Underlying().(*types.Struct)
+	ft := s.Field(x.Field).Type()
+	if base.Loc != nil {
+		l := *base.Loc
+		l.Path = append(append([]pathStep{}, l.Path...), pathStep{Field: x.Field, T: st0})
+		l.Typ = ft
+		f.vals[orig] = Val{Typ: orig.Type(), Addr: true, Loc: &l}
+		return
+	}
+	f.nilCheck(st, x.X, in)
+	arr, sort := u.fieldArr(st0, x.Field)
+	f.vals[orig] = Val{Typ: orig.Type(), Addr: true, Loc: &Loc{Arr: arr, Sort: sort, Key: base.T, Typ: ft}}
+}
+
 // summariseLoop replaces a loop without invariant by a deterministic summary: which exit edge
 // is taken and every value that flows out of the loop are uninterpreted functions of the loop's
 // live-in values (and the heap version). Two executions with the same live-ins agree.
@@ -1476,6 +1515,7 @@ func (f *Frame) summariseLoop(h *ssa.BasicBlock, ls *loopState, preds []*ssa.Bas
 	var ins []string
 	var sorts []string
 	seen := map[string]bool{}
+	seenV := map[ssa.Value]bool{}
 	addIn := func(v ssa.Value) {
 		if in, ok := v.(ssa.Instruction); ok && in.Block() != nil && ls.blocks[in.Block().Index] {
 			if phi, isPhi := v.(*ssa.Phi); !isPhi || phi.Block() != h {
@@ -1483,13 +1523,27 @@ func (f *Frame) summariseLoop(h *ssa.BasicBlock, ls *loopState, preds []*ssa.Bas
 			}
 		}
 		x := f.val(v)
-		if x.T == "" || x.Loc != nil || seen[x.T] {
-			return
-		}
 		if _, isC := v.(*ssa.Const); isC {
 			return
 		}
-		seen[x.T] = true
+		if u.structKeys {
+			// (position in the argument list must depend on the code only: one entry per live-in value)
+			if x.T == "" || x.Loc != nil || seenV[v] {
+				return
+			}
+			if _, isFn := v.(*ssa.Function); isFn {
+				return
+			}
+			if _, isG := v.(*ssa.Global); isG {
+				return
+			}
+			seenV[v] = true
+		} else {
+			if x.T == "" || x.Loc != nil || seen[x.T] {
+				return
+			}
+			seen[x.T] = true
+		}
 		typ := v.Type()
 		if x.Typ != nil {
 			typ = x.Typ
@@ -1526,6 +1580,22 @@ func (f *Frame) summariseLoop(h *ssa.BasicBlock, ls *loopState, preds []*ssa.Bas
 	ins = append(ins, u.hget(heap, "$hv"))
 	sorts = append(sorts, "Int")
 	key := fmt.Sprintf("loopsum:%s:%d", funcDisplayName(f.fn), f.loopOrd[h.Index])
+	var canon map[ssa.Value]string
+	if u.structKeys {
+		// textually identical loops (up to names, and up to this frame's mirror substitution) get
+		// the same summary functions wherever they occur
+		var hsh string
+		hsh, canon = u.W.structHashLoop(f.fn, ls, h, f.redirect)
+		key = "loopsum#" + hsh
+	}
+	outName := func(v ssa.Value) string {
+		if canon != nil {
+			if c, ok := canon[v]; ok {
+				return c
+			}
+		}
+		return v.Name()
+	}
 	// exits
 	type edge struct{ from, to int }
 	var exits []edge
@@ -1569,7 +1639,7 @@ func (f *Frame) summariseLoop(h *ssa.BasicBlock, ls *loopState, preds []*ssa.Bas
 			if tup, isTup := v.Type().(*types.Tuple); isTup {
 				var vs []Val
 				for i := 0; i < tup.Len(); i++ {
-					fn := u.D.Fun(fmt.Sprintf("%s:%s#%d", key, v.Name(), i), sorts, u.D.SortOf(tup.At(i).Type()))
+					fn := u.D.Fun(fmt.Sprintf("%s:%s#%d", key, outName(v), i), sorts, u.D.SortOf(tup.At(i).Type()))
 					vs = append(vs, Val{T: u.define("sum", u.D.SortOf(tup.At(i).Type()), app(fn, ins...)), Typ: tup.At(i).Type()})
 				}
 				f.vals[v] = Val{Typ: v.Type(), Tup: vs}
@@ -1583,7 +1653,7 @@ func (f *Frame) summariseLoop(h *ssa.BasicBlock, ls *loopState, preds []*ssa.Bas
 					continue
 				}
 			}
-			fn := u.D.Fun(fmt.Sprintf("%s:%s", key, v.Name()), sorts, u.D.SortOf(v.Type()))
+			fn := u.D.Fun(fmt.Sprintf("%s:%s", key, outName(v)), sorts, u.D.SortOf(v.Type()))
 			t := u.define("sum", u.D.SortOf(v.Type()), app(fn, ins...))
 			u.assumeRange(t, v.Type())
 			f.vals[v] = Val{T: t, Typ: v.Type()}
